@@ -368,6 +368,17 @@ func (env *SpecEnv) evalLoc(x ast.Expr) (specVal, error) {
 				return specVal{v: Val{T: fmt.Sprintf("(%s %s)", e.S.fieldAccessor(bt, i), env.term(b))}, t: ft}, nil
 			}
 		}
+		// ghost fields
+		if key, _ := structKey(bt); key != "" && parent != nil && parent.Kind == locCell {
+			if gt, ok := e.P.specs.GhostFields[key+"."+n.Sel.Name]; ok {
+				t, err := env.lookupType(gt)
+				if err != nil {
+					return specVal{}, err
+				}
+				hv := e.S.heapVar("F!"+key+"!$"+n.Sel.Name, "(Array Int "+e.S.sortOf(t)+")")
+				return specVal{loc: &Loc{Kind: locGField, T: t, Ptr: parent.Ptr, Var: hv}, t: t}, nil
+			}
+		}
 		// embedded fields (one level)
 		for i := 0; i < st.NumFields(); i++ {
 			if st.Field(i).Embedded() {
@@ -603,7 +614,7 @@ func (env *SpecEnv) evalCall(n *ast.CallExpr) (Val, types.Type, error) {
 		}
 		return Val{T: fmt.Sprintf("(exists ((%s Int)) (and %s %s))", bvq, rng, body.T)}, tBool, nil
 	case "fresh":
-		a, _, err := argv(0)
+		a, at, err := argv(0)
 		if err != nil {
 			return Val{}, nil, err
 		}
@@ -611,7 +622,24 @@ func (env *SpecEnv) evalCall(n *ast.CallExpr) (Val, types.Type, error) {
 		if env.old != nil {
 			oh = env.old.heap
 		}
+		if _, isSl := at.Underlying().(*types.Slice); isSl {
+			// a slice is fresh when it is nil or its backing array was allocated during this call
+			return Val{T: fmt.Sprintf("(or (= (sl_base %s) 0) (>= (sl_base %s) %s))", a.T, a.T, e.hget(oh, e.S.allocVar()))}, tBool, nil
+		}
 		return Val{T: fmt.Sprintf("(>= %s %s)", a.T, e.hget(oh, e.S.allocVar()))}, tBool, nil
+	case "loopvariant":
+		// value of an enclosing loop's (first) variant at the start of its current iteration
+		lit, ok := n.Args[0].(*ast.BasicLit)
+		if !ok || env.f == nil {
+			return Val{}, nil, fmt.Errorf("loopvariant(k)")
+		}
+		k, _ := strconv.Atoi(lit.Value)
+		for _, li := range env.f.loops {
+			if li.ordinal == k && len(li.variant) > 0 {
+				return Val{T: li.variant[0]}, tInt, nil
+			}
+		}
+		return Val{}, nil, fmt.Errorf("loopvariant(%d): loop has no declared variant (or is not entered yet)", k)
 	case "typeis":
 		a, _, err := argv(0)
 		if err != nil {
